@@ -71,32 +71,10 @@ Definition run_C16 (op : bytes) (input : arg) : arg :=
 Import Spec.C16.
 Open Scope N_scope.
 
-(* the curve a displayed name refers to: the text before the first space *)
-Fixpoint first_word (l : bytes) : bytes :=
-  match l with
-  | [] => []
-  | c :: r => if c =? 32 then [] else c :: first_word r
-  end.
-
-Definition base_is_generator (k : curve_consts) (base : bytes) : bool :=
-  match base with
-  | 4 :: xy =>
-      Nat.eqb (length xy) (2 * n_flen k) &&
-      (zbe (firstn (n_flen k) xy) =? n_gx k)%Z && (zbe (skipn (n_flen k) xy) =? n_gy k)%Z
-  | pre :: x =>
-      ((pre =? 2) || (pre =? 3)) && Nat.eqb (length x) (n_flen k) &&
-      (zbe x =? n_gx k)%Z && (Z.of_N pre =? 2 + (n_gy k) mod 2)%Z
-  | [] => false
-  end.
-
-(* all five components are those of the named curve; [with_prime = false] for the bare
-   primeFieldParamsMatch, which is not given the prime *)
+(* the predicates themselves (first_word, base_is_generator, spec_components) are in Spec/C16.v *)
 Definition components_equal (with_prime : bool) (k : curve_consts) (f : arg) : bool :=
-  (negb with_prime || match optz_of_arg (arg_nth 1 f) with Some z => (z =? n_p k)%Z | None => false end) &&
-  (zbe (arg_bytes (arg_nth 3 f)) =? n_a k)%Z &&
-  (zbe (arg_bytes (arg_nth 4 f)) =? n_b k)%Z &&
-  (z_of_arg (arg_nth 8 f) =? n_n k)%Z &&
-  base_is_generator k (arg_bytes (arg_nth 7 f)).
+  spec_components with_prime k (optz_of_arg (arg_nth 1 f)) (arg_bytes (arg_nth 3 f))
+    (arg_bytes (arg_nth 4 f)) (arg_bytes (arg_nth 7 f)) (z_of_arg (arg_nth 8 f)).
 
 Definition check_name (fields : option arg) (shown : bytes) : option string :=
   match nist (first_word shown) with
